@@ -770,7 +770,77 @@ def window_failures(n, seed, limit=3):
     return fails
 
 
+def requirement_failures(n, seed, limit=3):
+    """[B] the four requirement predicates of the real code against their stated meaning (FitRequirements), on non-uniform grids with
+    growing and shrinking spacing: near the edge (within two smallest steps of either end), pointing down (negative amplitude), too wide
+    (FWHM above max_peak_width_factor x window width), too narrow (FWHM below min_peak_width_factor x the spacing around the peak centre:
+    the mean of the two cells next to the grid point closest to the centre).  Values within 1e-9 of a threshold, and centres half way
+    between two grid points, are don't-cares."""
+    import numpy as np
+    import scipp as sc
+    from vf.realrun import real_module
+    fp = real_module('peaks._fit_peaks')
+    common = real_module('peaks._common')
+    model = real_module('peaks.model')
+    rng = np.random.default_rng(seed)
+    fails = []
+    for i in range(n):
+        npts = int(rng.integers(5, 40))
+        kind = i % 3
+        if kind == 0:
+            x = np.cumsum(rng.uniform(0.5, 1.5, npts))
+        elif kind == 1:
+            x = 10 * (1 - 0.94 ** np.arange(1, npts + 1))          # spacing shrinks
+        else:
+            x = np.cumsum(1.07 ** np.arange(npts))                 # spacing grows
+        x = x + float(rng.uniform(-20, 20))
+        d = sc.DataArray(sc.array(dims=['x'], values=np.ones(npts), variances=np.ones(npts)), coords={'x': sc.array(dims=['x'], values=x, unit='m')})
+        loc = float(rng.uniform(x[0] - 0.5, x[-1] + 0.5))
+        k = int(np.argmin(np.abs(x - loc)))
+        dists = np.sort(np.abs(x - loc))
+        kc = min(max(k, 1), npts - 2)
+        spacing = (x[kc + 1] - x[kc - 1]) / 2
+        req = common.FitRequirements(min_peak_width_factor=float(rng.uniform(0.5, 4)), max_peak_width_factor=float(rng.uniform(0.1, 1.5)))
+        cls = [model.GaussianModel, model.LorentzianModel][i % 2]
+        peak = cls(prefix='peak_')
+        target = [req.min_peak_width_factor * spacing, req.max_peak_width_factor * (x[-1] - x[0])][(i // 2) % 2] * float(rng.choice([0.5, 0.97, 0.999, 1.001, 1.03, 2.0]))
+        fw_per_scale = peak.fwhm({'peak_scale': sc.scalar(1.0, unit='m')}).value
+        scale = target / fw_per_scale
+        amp = float(rng.choice([-1.0, 1.0]) * rng.uniform(0.1, 5))
+        popt = {'peak_loc': sc.scalar(loc, unit='m'), 'peak_scale': sc.scalar(scale, unit='m'), 'peak_amplitude': sc.scalar(amp)}
+        fwhm = fw_per_scale * scale
+        step = np.min(np.diff(x))
+        desc = {'id': f'req{i}', 'index': i, 'seed': seed, 'kind': 'requirements', 'grid': ['random', 'shrinking', 'growing'][kind], 'n_points': npts, 'loc': loc, 'fwhm': fwhm}
+        want = {
+            '_peak_is_near_edge': (lambda: fp._peak_is_near_edge(d, popt), loc - x[0] < 2 * step or x[-1] - loc < 2 * step, min(abs(loc - x[0] - 2 * step), abs(x[-1] - loc - 2 * step))),
+            '_curve_points_down': (lambda: fp._curve_points_down(popt), amp < 0, 1.0),
+            '_peak_is_too_wide': (lambda: fp._peak_is_too_wide(d, peak, popt, req), fwhm > req.max_peak_width_factor * (x[-1] - x[0]),
+                                  abs(fwhm / (req.max_peak_width_factor * (x[-1] - x[0])) - 1)),
+            '_peak_is_too_narrow': (lambda: fp._peak_is_too_narrow(d, peak, popt, req), fwhm < req.min_peak_width_factor * spacing,
+                                    min(abs(fwhm / (req.min_peak_width_factor * spacing) - 1), (dists[1] - dists[0]) * 1e3 if npts > 1 else 1.0)),
+        }
+        for name, (call, expect, margin) in want.items():
+            if margin < 1e-9:
+                continue
+            try:
+                got = bool(call())
+            except Exception as e:  # noqa: BLE001
+                fails.append({**desc, 'problem': f'{name} raised {type(e).__name__}: {e}'[:300]})
+                break
+            if got != bool(expect):
+                fails.append({**desc, 'problem': f'{name} == {got}; by the stated requirement it is {bool(expect)} (FWHM {fwhm:.6g}, spacing around the centre {spacing:.6g}, '
+                                                 f'min factor {req.min_peak_width_factor:.4g}, window {x[-1] - x[0]:.6g}, max factor {req.max_peak_width_factor:.4g})'})
+                break
+        if len(fails) >= limit:
+            break
+    return fails
+
+
 def bounded_end_to_end(chk):
+    nr = 600 if chk.tier == 'quick' else 20000
+    rf = requirement_failures(nr, 23 + chk.seed)
+    chk.bounded_check('requirement-predicates', 'real _peak_is_near_edge / _curve_points_down / _peak_is_too_wide / _peak_is_too_narrow vs the stated requirements',
+                      f'{nr} random (grid, centre, width, amplitude, factors) with widths at 0.5 .. 2 times a threshold; uniform-ish, shrinking and growing spacing', nr, rf)
     nw = 400 if chk.tier == 'quick' else 10000
     wf = window_failures(nw, 17 + chk.seed)
     chk.bounded_check('fit-windows', 'real _fit_windows vs the window construction and its stated properties', f'{nw} random sets of 1..6 estimates (also outside the data), '
@@ -785,6 +855,10 @@ def replay(rec):
     f = rec.get('meta', {}).get('replay') or {}
     if f.get('kind') == 'windows' or 'lemma/windows' in rec['obligation'] or '/bounded/fit-windows/' in rec['obligation']:
         fails = window_failures(int(f.get('index', 399)) + 1, int(f.get('seed', 17)), limit=10 ** 6)
+        hit = [x for x in fails if 'index' not in f or x['index'] == f['index']]
+        return {'reproduced': bool(hit), 'cases': hit[:1]}
+    if f.get('kind') == 'requirements' or '/bounded/requirement-predicates/' in rec['obligation'] or '_assess_fit' in rec['obligation']:
+        fails = requirement_failures(int(f.get('index', 599)) + 1, int(f.get('seed', 23)), limit=10 ** 6)
         hit = [x for x in fails if 'index' not in f or x['index'] == f['index']]
         return {'reproduced': bool(hit), 'cases': hit[:1]}
     fails = end_to_end_failures(60, 90, limit=2)
